@@ -167,6 +167,14 @@ def run(rep):
                         continue
                     # last known-NULL points: clears of the field
                     def clears(m, fld=fld):
+                        # `self->f = NULL` leaves the field empty (the value it held
+                        # was taken over by a local first: B2 follows that reference)
+                        if m.e is not None:
+                            for y in m.e.walk():
+                                if y.k == 'assign' and y.a[0] == '=' and y.a[1] is not None and \
+                                        is_field(y.a[1], 'self', fld) and y.a[2] is not None \
+                                        and y.a[2].k == 'null':
+                                    return True
                         for c in node_calls(m):
                             if c.a[0] == 'Py_CLEAR' and is_field(c.a[1][0], 'self', fld):
                                 return True
